@@ -282,6 +282,33 @@ class FakeScores:
     pass
 
 
+def support_result(ev_, fi, bound):
+    """What the stubbed support-point helper hands back: the threshold array THR - in whatever FORM the helper returns it.  A helper that
+    returns the bare array gets THR; one that returns a record built in its return statement (`_SupportPoints(thresholds=thresholds,
+    fnr=scores.fnr(thresholds), ...)`) gets that expression evaluated with the local threshold array bound to THR (the rates then go through
+    the same stubs the callers' own evaluations used to)."""
+    import ast
+    from ..evalr import Frame
+    THR = Sym("THR", ("array", "notnone"))
+    rets = [n for n in ast.walk(fi.node) if isinstance(n, ast.Return) and n.value is not None]
+    if not rets or all(isinstance(r.value, ast.Name) for r in rets):
+        return THR
+    if len(rets) == 1 and isinstance(rets[0].value, (ast.Call, ast.Tuple)):
+        frame = Frame(fi.module, fi, None, None)
+        frame.vars.update(bound)
+        assigned = {t.id for n in ast.walk(fi.node) if isinstance(n, (ast.Assign, ast.AugAssign, ast.AnnAssign))
+                    for t in ast.walk(n.targets[0] if isinstance(n, ast.Assign) else n.target) if isinstance(t, ast.Name)}
+        locals_used = sorted({n.id for n in ast.walk(rets[0].value) if isinstance(n, ast.Name) and isinstance(n.ctx, ast.Load) and n.id in assigned})
+        if len(locals_used) != 1:
+            return NotImplemented          # more than the threshold array is computed locally: run the helper itself
+        frame.vars[locals_used[0]] = THR   # the local that holds the support thresholds (possibly re-binding a parameter of that name)
+        try:
+            return ev_.eval(rets[0].value, frame)
+        except Exception:  # noqa: BLE001
+            return NotImplemented
+    return NotImplemented
+
+
 def band_functions(ctx, chk):
     """roc_with_ci / pointwise_band_ci / simultaneous_joint_region_ci with the Scores API stubbed."""
     ev = ctx.ev
@@ -297,7 +324,7 @@ def band_functions(ctx, chk):
             return h
 
         def st_support(ev_, fi, bound):
-            return Sym("THR", ("array", "notnone"))
+            return support_result(ev_, fi, bound)
 
         def st_r3(ev_, fi, bound):
             calls["r3"].append(dict(bound))
@@ -418,7 +445,7 @@ def extra_point_counts(ctx, chk):
 
     def st_support(ev_, fi, bound):
         caps.append(bound.get("nb_extra_points"))
-        return Sym("THR", ("array", "notnone"))
+        return support_result(ev_, fi, bound)
 
     def st_bci(ev_, fi, bound):
         return Sym("JOINT", ("array", "notnone"))
@@ -448,7 +475,9 @@ def extra_point_counts(ctx, chk):
         outs = c15.with_stubs(ctx, lambda: ctx.explore(lambda: ev.call(f, [ctx.scores_obj("pos", "pos")], dict(args)), chk))
         nums = {}
         for o in outs:
-            terms = [o.value] if hasattr(o.value, "key") else []
+            terms = [o.value] if hasattr(o.value, "key") and not isinstance(o.value, Obj) else []
+            if isinstance(o.value, Obj):        # a record (thresholds, fnr, fpr): every field
+                terms += [v_ for v_ in o.value.attrs.values() if hasattr(v_, "key") and not isinstance(v_, Obj)]
             terms += [c for c, _t in o.pc]
             for t_ in terms:
                 for a in atoms_of(t_):
